@@ -61,15 +61,6 @@ structure TraceInv (R : Nat → Conn → List HEv → Prop) (D : Nat → List HE
   dead : ∀ k sid, (∀ c, lookup k P.conns = some c → c.sid ≠ sid) → D k (histOf k sid tr)
   unused : ∀ k sid, P.nextSid ≤ sid → histOf k sid tr = []
 
-theorem lookup_putBack_self (P : Pool) (k : Nat) (st : Step) (hs : KeysSorted P.conns) :
-    lookup k (putBack P k st).conns = if st.closed then none else some st.conn := by
-  unfold putBack
-  split
-  · show lookup k (remove k P.conns) = _
-    rw [lookup_remove k k _ hs]; simp
-  · show lookup k (upsert k st.conn P.conns) = _
-    rw [lookup_upsert]; simp
-
 /-- writing back the result of a step of stream `(k, sid)` whose history grew by `hnew` -/
 theorem putBack_traceInv {R : Nat → Conn → List HEv → Prop} {D : Nat → List HEv → Prop}
     (P : Pool) (tr : Trace) (k sid : Nat) (st : Step) (hnew : List HEv) (h : TraceInv R D P tr)
